@@ -1,6 +1,6 @@
 SPECIFICATION LSpec
 CONSTANTS
-  PDiv = 1
+  PDiv = 2
   Keys = {1,2,3,4,5}
   Prios = {1,2,3}
   Inits <- InitsPQ
